@@ -545,6 +545,20 @@ pub fn print_canonical(f: &Filter) -> Vec<u8> {
     out
 }
 
+/// Random rendering that is valid UTF-8 (every byte >= 0x80 is escaped): usable through &str APIs.
+pub fn print_random_ascii(f: &Filter, rng: &mut Rng) -> String {
+    let raw = print_random(f, rng);
+    let mut out = Vec::with_capacity(raw.len());
+    for b in raw {
+        if b >= 0x80 {
+            push_escaped(&mut out, b, rng.bool());
+        } else {
+            out.push(b);
+        }
+    }
+    String::from_utf8(out).expect("ascii")
+}
+
 pub fn print_random(f: &Filter, rng: &mut Rng) -> Vec<u8> {
     let mut out = vec![];
     print_into(&mut out, f, &mut Some(rng), true);
